@@ -142,8 +142,11 @@ def run(R, ctx):
                                   "each program seeds the keys, reads each of them once, runs 25 vectors, then writes to every seeded key and probes that old and new keys still answer" % len(ALPHA),
                              extra_lines=lines, events=True,
                              shards=([1] if R.tier == "quick" else [1, 2, 1024]))   # ShardNum 1: two lock stripes, so distinct keys collide
-    if broken and not R.violations:
-        # fact F3 is broken and neither the enumeration nor the vectors aimed at the offending executors produced a crash
+    if broken and not any(found for _p, _s, found in R.violations):
+        # fact F3 is broken and neither the enumeration nor the vectors aimed at the offending executors produced a crash: say which site, not
+        # only which theorem (the suite's generic `proof-broken` entry is replaced when everything that broke is Props/C04Sites)
+        if all(t.startswith("Sites.") for t, _ in getattr(ctx, "broken", [])):
+            R.violations = [v for v in R.violations if not v[0].endswith("/proof-broken.json")]
         msgs = [m for f, ms in getattr(R, "facts_broken", []) if f == "F3" for m in ms]
         R.violation("f3-sites", dict(kind="proof-broken", broken=msgs, theorems=["Sites.const_sites_safe", "Sites.rel_sites_safe",
                                                                                   "Sites.executor_entry_safe", "Sites.dynamic_inventory"],
